@@ -375,7 +375,10 @@ pub async fn localfs_pipeline(out: &mut Out, rng: &mut Rng) {
     // restart: a second integration on the same directory recovers into a fresh node
     let integ2 = match create_integration(cfg, 1).await {
         Ok(i) => i,
-        Err(_) => return,
+        Err(e) => {
+            out.violation("C12:localfs:create-integration-failed", &format!("create_integration(LocalFs) failed on restart: {}", e), json!(null));
+            return;
+        }
     };
     let state = ReplicatedShardedState::new(repl_config(1));
     match integ2.recover(&state).await {
